@@ -38,6 +38,8 @@ fn affiliate_for(a: &str, rng: &mut StdRng) -> Option<Affiliate> {
         "default (R)" => spell(&["(R)", "default (r)", "Default (R)"], rng),
         "spouse" => spell(&["Spouse", " spouse ", "SPOUSE"], rng),
         "spouse (R)" => spell(&["Spouse (R)", " spouse  (R) ", "spouse(r)"], rng),
+        // an affiliate of its own whose name merely begins like the default one's
+        "default spouse" => spell(&["Default Spouse", "default spouse", "Defaulter"], rng),
         "global" => return Some(Affiliate::global()),
         other => other.to_string(),
     }))
